@@ -151,7 +151,12 @@ impl Scenario for ScanEdit {
             if spec.file("conftest.py").is_none() {
                 spec.files.push(PyFile { rel: "conftest.py".into(), items: vec![Item::Fixture(Fx { func: "alpha".into(), ..Default::default() })] });
             }
-            spec.files.push(PyFile { rel: "plugsrc/myplug/plugin.py".into(), items: vec![Item::Plugins { modules: vec!["conftest".into()], targets: vec![Some("conftest.py".into())] }, Item::Fixture(Fx { func: "plug_only".into(), ..Default::default() })] });
+            // (in 2 of 5 such workspaces the plugin does not declare the conftest: the project is just installed editable)
+            let mut plugin_items = vec![Item::Fixture(Fx { func: "plug_only".into(), ..Default::default() })];
+            if rng.chance(600) {
+                plugin_items.insert(0, Item::Plugins { modules: vec!["conftest".into()], targets: vec![Some("conftest.py".into())] });
+            }
+            spec.files.push(PyFile { rel: "plugsrc/myplug/plugin.py".into(), items: plugin_items });
             spec.files.push(PyFile { rel: "plugsrc/myplug/__init__.py".into(), items: vec![] });
             let sp = super::ws::SITE;
             spec.extra.push((format!("{}/myplug-0.1.0.dist-info/direct_url.json", sp), "{\"url\": \"file://${ROOT}/plugsrc\", \"dir_info\": {\"editable\": true}}".to_string()));
